@@ -74,7 +74,22 @@ theorem store_chunk_leaves_other_chunks_alone (cfg : Cfg) (fs fs' : FS) (key : S
   store_chunk_frame cfg fs fs' key c buf mime ow hs key' c' hne
 
 /-- non-vacuity of the frame theorem: a store that succeeds -/
-example : ∃ fs', storeChunk ⟨true, false⟩ [] "k" (0, 1, 0, 1, 0, 1) [1] "application/octet-stream" true = .ok fs' :=
-  ⟨_, rfl⟩
+example : ∃ fs', storeChunk ⟨true, false⟩ [] "k" (0, 1, 0, 1, 0, 1) [1] "application/octet-stream" true = .ok fs' := by
+  have h : chunkRefused "k" = false := by decide
+  exact ⟨_, by simp only [storeChunk, h, Bool.false_eq_true, if_false]; rfl⟩
+
+/-- keys that are refused, and keys with dots or sub-directories that are not -/
+example : chunkRefused "" = true ∧ chunkRefused "../x" = true ∧ chunkRefused "a/../../b" = true ∧
+    chunkRefused "/abs" = true ∧ chunkRefused "lvl/0" = false ∧ chunkRefused "v1..2" = false ∧
+    chunkRefused "./k" = false := by decide
+
+/-- chunk names are confined too (defect F38, repaired): a scale key that makes the chunk's relative name
+    absolute (the empty key) or that contains a `..` component is refused by `store_chunk` AND `fetch_chunk`,
+    whatever the configuration, coordinates and file-system state - nothing outside the dataset directory is
+    read or written, and the file system is not touched -/
+theorem escaping_chunk_keys_refused (cfg : Cfg) (fs : FS) (key : String) (c : Nat × Nat × Nat × Nat × Nat × Nat)
+    (buf : Bytes) (mime : String) (ow : Bool) (h : chunkRefused key = true) :
+    storeChunk cfg fs key c buf mime ow = .error .refused ∧ fetchChunk fs key c = .error .refused :=
+  chunk_key_escape_refused cfg fs key c buf mime ow h
 
 end NgVerif.Props.C12
